@@ -7,7 +7,7 @@
     raises SnmpEncodeError with nothing sent, and the next small request (same and another session) is intact.
 """
 
-from .. import common, drivers, histories, refber as rb, rsx
+from .. import common, drivers, histories, loomx, refber as rb, rsx
 from ..drivers import Cfg
 from ..reqoracle import Call, SessionModel, check_request
 
@@ -193,9 +193,13 @@ def run(tier):
         "without the seam an 8-octet tolerance is applied)",
         "request size grows monotonically with the swept parameter; privacy adds a second (private) buffer, so for privacy configurations only monotonicity, clean refusal and intact "
         "follow-up requests are required, not one common threshold",
+        "(c) loom explores the real pool.rs/buffer.rs (std::sync mapped to loom::sync by a textual shim) for 2-3 threads x 1-3 acquire/release rounds, preemption bound 2-3",
         "Miri slice (cargo +nightly miri) of the depth-3 enumeration is run in the thorough tier when the nightly toolchain is present",
     )
     rep = rsx.run("c17", tier, rec)
+    # (c) the shared pool under all interleavings (loom, preemption-bounded)
+    for th, rounds, bound in ((2, 2, 3), (3, 1, 2)) + (((3, 2, 2), (2, 3, 3)) if tier == "thorough" else ()):
+        loomx.explore(rec, th, rounds, bound)
     cap = rec.counters.get("rsx_capacity", 0) or 4080
     # rsx counters are summed per shard-less keys: capacity is reported once
     rec.extra["discovered_capacity"] = cap
